@@ -36,6 +36,10 @@ _fresh = itertools.count()
 def fresh(prefix, sort=None):
     return z3.Const(f'{prefix}!{next(_fresh)}', sort if sort is not None else Obj)
 
+def _issub(a, b):
+    try: return issubclass(a, b)
+    except Exception: return False
+
 class Universe:
     """Registry of z3 constants standing for concrete Python objects found in real scopes (classes, literal values,
     sentinels, user callables), plus the axioms that follow from the REAL objects (class graph via issubclass,
@@ -83,9 +87,16 @@ class Universe:
                 ax.append(subc(za, zb) == z3.BoolVal(bool(sub)))
             ax.append(subc(za, za))
             # a class object is an instance of its metaclass / of `type`
+            facts = {}
             for zb, b in cs:
-                try: ax.append(inst(za, zb) == z3.BoolVal(isinstance(a, b)))
+                try: facts[b] = (zb, isinstance(a, b))
                 except Exception: pass
+            for b, (zb, val) in facts.items():
+                # structural classes (Protocols, ABCs with __subclasshook__) answer isinstance(<class object>, P) from the class's own attributes
+                # and issubclass(P, Q) from P's: the two need not compose (isinstance(Sized, SupportsLen), issubclass(SupportsLen, Sized), not
+                # isinstance(Sized, Sized)).  A positive fact that the real class graph contradicts is left unconstrained rather than asserted.
+                if val and any(_issub(b, b2) and not v2 for b2, (_, v2) in facts.items()): continue
+                ax.append(inst(za, zb) == z3.BoolVal(val))
         ax.append(z3.ForAll([y], inst(y, self.const(object))))
         # --- literal / sentinel values: real isinstance, real ==, real truthiness
         for zv, v in vs:
@@ -99,6 +110,7 @@ class Universe:
                 try: r = bool(v == w)
                 except Exception: continue
                 ax.append(eq(zv, zw) == z3.BoolVal(r))
+                if v is w: continue      # eqc(c) == eqc(c) holds by logic even for objects that are not equal to themselves
                 try: ax.append((eqc(zv) == eqc(zw)) == z3.BoolVal(bool(r and hash(v) == hash(w))))
                 except Exception: pass
             if isinstance(v, (tuple, list, str, bytes, frozenset, set, dict)):
